@@ -57,6 +57,8 @@ TEMPLATES = {
     "display": "pub fn probe(x: &Key<V, {K}>) -> String {{ format!(\"{{}}\", x) }}",
     "debug": "pub fn probe(x: &Key<V, {K}>) -> String {{ format!(\"{{:?}}\", x) }}",
     "serde_key": "pub fn probe(x: &Key<V, {K}>) {{ let _ = serde_json::to_string(x); }}",
+    "into_keytext": "pub fn probe(x: Key<V, {K}>) {{ let _: paseto_core::paserk::KeyText<V, {K}> = x.into(); }}",
+    "send_sync": "pub fn probe() {{ fn shared<T: Send + Sync>() {{}} shared::<Key<V, {K}>>(); }}",
     "private_field": "pub fn probe(x: Key<V, {K}>) {{ let _ = x.0; }}",
     "expose_to_string": "pub fn probe(x: &Key<V, {K}>) -> String {{ x.expose_key().to_string() }}",
     "from_bytes32": "pub fn probe() {{ let _: Key<V, {K}> = Key::from([0u8; 32]); }}",
